@@ -547,6 +547,7 @@ func newJoin(c Cfg, w *vrt.World) *explore.Instance {
 			vrt.Spawn("stopper", func() {
 				ad.stop()
 				m.stopReturned = true
+
 				if !vrt.ChanClosed(ad.out) {
 					m.f.fail("C16", "join Stop() returned but the output channel is not closed")
 				}
